@@ -259,7 +259,7 @@ fn c11d_bcj_reader_roundtrip_split_arm() {
 }
 
 // C05-F: an Interrupted from the inner reader must be transient: retrying the read continues the stream.
-//@ {"name":"c05f_bcj_reader_interrupted","props":["C05"],"obligation":"C05-F","timeout":2400,"mem_gb":13,"functions":["filter::bcj::BCJReader::read"],"bounds":"ARM filter; 8 arbitrary bytes; inner reader reports Interrupted at its first call; then two retries; unwind 14","assumes":[]}
+//@ {"name":"c05f_bcj_reader_interrupted","props":["C05"],"tier":"thorough","obligation":"C05-F","timeout":3600,"mem_gb":24,"functions":["filter::bcj::BCJReader::read"],"bounds":"ARM filter; 8 arbitrary bytes; inner reader reports Interrupted at its first call; then two retries; unwind 14","assumes":[]}
 #[kani::proof]
 #[kani::unwind(14)]
 fn c05f_bcj_reader_interrupted() {
